@@ -453,6 +453,12 @@ func run(c *rig.Ctx) {
 			}
 			if p.ref.unspecified != "" {
 				c.Count("unspecified_histories", 1)
+				// a fresh machine, as the direct part takes a fresh timer: the old one may be in the
+				// middle of a reload the reference has stopped following
+				m = rig.MustNew(rig.BlankROM(0, 0, 0), rig.Opts{})
+				for q := 0; q < 4; q++ {
+					m.Step()
+				}
 				p = newPairOn(busTimer{m}, start{counter: p.ref.counter, tac: p.ref.tac, tima: r.U8(), tma: p.ref.tma})
 			}
 			c.Count("bus_ops", 1)
